@@ -16,8 +16,22 @@
 (* (the i-th glyph of the ascending list has index i-1).  The harness      *)
 (* (c08 cov) demands: emitted words = one of the minimal encodings,        *)
 (* EncodeLen/AppendLen = emitted length, decoding = the glyph list.        *)
+(*                                                                         *)
+(* Degenerate populations of the in-memory types (ride along with "cdef"): *)
+(*  classdef.Table is a map glyph -> class; a glyph without an entry is in *)
+(*  class 0, so an entry with class 0 carries no information.  NORMAL FORM *)
+(*  NF(t) = the entries of t with class # 0.  DegCases: no entry (nil and  *)
+(*  empty map), one entry, entries at glyph 0 and 65535, and explicit      *)
+(*  class-0 entries: alone (all-zero tables), below the lowest, above the  *)
+(*  highest non-zero glyph, adjacent to the first / last one, in a gap.    *)
+(*  coverage.Set is a map glyph -> bool whose members are its KEYS (the    *)
+(*  library tests membership by key); NF(s) = the key set.  SetCases: nil, *)
+(*  empty, single, glyph 0 / 65535, with false values on some / all keys.  *)
+(* Demand for these (any well-formed encoding is accepted, zeros may be    *)
+(* kept or dropped): declared length = emitted length, the bytes are one   *)
+(* complete table, decode(encode(x)) = NF(x), and no refusal.              *)
 (***************************************************************************)
-EXTENDS Integers, Sequences, TLC, Json, SequencesExt
+EXTENDS Integers, Sequences, FiniteSets, TLC, Json, SequencesExt
 
 CONSTANTS Mode,      \* "cov" | "cdef" | "dense"
           MaxSegs,   \* 0..MaxSegs runs
@@ -87,20 +101,38 @@ DenseOut(c) == LET span == c.b - c.a + 1 IN
   [what |-> "dense", a |-> c.a, b |-> c.b, span |-> span, representable |-> span <= 65535,
    size |-> IF 6 + 2 * span <= 4 + 6 * span THEN 6 + 2 * span ELSE 4 + 6 * span]
 
+\* ---- degenerate populations
+DegNZ == { <<>>, << <<100, 1>> >>, << <<100, 1>>, <<101, 1>>, <<105, 2>> >>, << <<0, 1>> >>, << <<65535, 2>> >>,
+           << <<0, 1>>, <<65535, 1>> >> }
+ZeroCand == {0, 50, 99, 102, 106, 300, 65535}
+PairGlyphs(p) == {p[i][1] : i \in 1..Len(p)}
+DegCases == UNION { { [nz |-> p, zs |-> z, isnil |-> FALSE] :
+                        z \in {x \in SUBSET ZeroCand : Cardinality(x) <= 2 /\ x \cap PairGlyphs(p) = {}} } : p \in DegNZ }
+            \cup {[nz |-> <<>>, zs |-> {}, isnil |-> TRUE]}
+DegOut(c) == [what |-> "cdefdeg", isnil |-> c.isnil, nf |-> c.nz,
+              pairs |-> SetToSortSeq({c.nz[i] : i \in 1..Len(c.nz)} \cup {<<g, 0>> : g \in c.zs}, LAMBDA a, b : a[1] < b[1])]
+SetKeys == { <<>>, <<5>>, <<0>>, <<65535>>, <<0, 65535>>, <<5, 6, 7>> }
+SetCases == UNION { { [keys |-> k, falses |-> f, isnil |-> FALSE] : f \in SUBSET {k[i] : i \in 1..Len(k)} } : k \in SetKeys }
+            \cup {[keys |-> <<>>, falses |-> {}, isnil |-> TRUE]}
+SetOut(c) == [what |-> "setdeg", isnil |-> c.isnil, keys |-> c.keys, falses |-> c.falses]
+IsDeg(c) == "nz" \in DOMAIN c
+IsSet(c) == "keys" \in DOMAIN c
+
 IsDense(c) == "a" \in DOMAIN c
 \* the dense cases ride along with the class definition run
 Init == rec \in IF Mode = "dense" THEN DenseCases
-               ELSE {c \in Cases : InRange(c)} \cup (IF Mode = "cdef" THEN DenseCases ELSE {})
+               ELSE {c \in Cases : InRange(c)} \cup (IF Mode = "cdef" THEN DenseCases \cup DegCases \cup SetCases ELSE {})
 Next == UNCHANGED rec
 
 \* properties of the two encodings that TLC checks on every case (the spec's own sanity):
 \* declared sizes, ascending glyphs, format-2 start indices consistent with format 1
-SizesOK == IsDense(rec) \/ LET c == rec  b == Bounds(c)  g == GlyphsOf(c, b) IN
+SizesOK == IsDense(rec) \/ IsDeg(rec) \/ IsSet(rec) \/ LET c == rec  b == Bounds(c)  g == GlyphsOf(c, b) IN
   IF Mode = "cov" THEN /\ 2 * Len(CovEnc1(c, b)) = 4 + 2 * Len(g)
                        /\ 2 * Len(CovEnc2(c, b)) = 4 + 6 * Len(b)
                        /\ \A i \in 1..Len(b) : g[b[i][3] + 1] = b[i][1]
                        /\ \A k \in 2..Len(g) : g[k] > g[k - 1]
                   ELSE /\ 2 * Len(CDefEnc1(c, b)) = 6 + 2 * SpanOf(b)
                        /\ 2 * Len(CDefEnc2(c, b)) = 4 + 6 * Len(b)
-Emit == PrintT(<<"CASE", ToJson(IF IsDense(rec) THEN DenseOut(rec) ELSE Out(rec))>>)
+Emit == PrintT(<<"CASE", ToJson(IF IsDense(rec) THEN DenseOut(rec) ELSE IF IsDeg(rec) THEN DegOut(rec)
+                                ELSE IF IsSet(rec) THEN SetOut(rec) ELSE Out(rec))>>)
 =============================================================================
